@@ -160,7 +160,7 @@ def run_case(i, seed, tier):
             # descriptor areas ending exactly at / just past a sector boundary, the entry that crosses it
             # being a file, symbolic link, directory or further name of a file
             h.sess.close()
-            cfg, sops = common.special_layout(g, ['udf-exact-fill', 'udf-big-dir', 'udf-exact-fill'][(i // 10) % 3])
+            cfg, sops = common.special_layout(g, ['udf-exact-fill', 'udf-big-dir', 'udf-exact-fill', 'udf-many-files'][(i // 10) % 4])
             h = common.History(cfg, cs, profile, max_size=4000)
             for op in sops:
                 h.apply(op)
